@@ -6,7 +6,7 @@ from plint.symx import C
 from plint.ir import line
 from plint.units import AnalysisBroken
 from plint import shape, treeshape
-from rules.treecommon import TreeRun, variant_roles, field_writers
+from rules.treecommon import TreeRun, variant_roles, field_writers, fixup_functions
 
 BAL_FIELDS = {"ptree-rb.c": "color", "ptree-avl.c": "balance_factor"}
 
@@ -28,8 +28,8 @@ def run(prog, rep):
         u = prog.unit(un)
         tag = "rb" if "rb" in un else "avl"
         fw = field_writers(u)
-        balancers = set(f for f, w in fw.items() if fld in w and f.startswith("pp_"))
-        rot = set(f for f, w in fw.items() if {"left", "right"} <= w and f.startswith("pp_"))
+        balancers = fixup_functions(u, fld)
+        rot = set(balancers)
         if not balancers:
             raise AnalysisBroken("%s: no helper writes %s" % (un, fld))
         # ---- insert ----
@@ -113,7 +113,7 @@ def run(prog, rep):
         tag = "rb" if "rb" in un else "avl"
         rule = "C13.2" if tag == "rb" else "C13.3"
         fw = field_writers(u)
-        fixers = set(f for f, w in fw.items() if fld in w and {"left", "right"} <= w and f.startswith("pp_"))
+        fixers = fixup_functions(u, fld)
         for mode in ("insert", "remove"):
             top = u.fn("p_tree_%s_%s" % (tag, mode), raw=True)
             called = sorted(set(c.get("callee") for (b, i, c) in top.calls() if c.get("callee") in fixers))
@@ -161,7 +161,7 @@ def run(prog, rep):
         ok, msg, where = True, "", fn.loc[0]
         nnew = 0
         zeroing = all(c.get("callee") == "p_malloc0" for (b, i, c) in fn.calls() if c.get("callee") in ("p_malloc", "p_malloc0"))
-        fixers_i = set(f for f, w in field_writers(u).items() if fld in w and {"left", "right"} <= w and f.startswith("pp_"))
+        fixers_i = fixup_functions(u, fld)
         for (st, stmt, cur) in r.rets:
             al = st.tags.get("alloc")
             if al is None:
@@ -187,7 +187,7 @@ def run(prog, rep):
         r = TreeRun(fn, "remove", variant_roles(fn)).run()
         ok, msg, where = True, "", fn.loc[0]
         nchild = 0
-        fixers = set(f for f, w in field_writers(u).items() if fld in w and {"left", "right"} <= w and f.startswith("pp_"))
+        fixers = fixup_functions(u, fld)
         for (st, stmt, cur) in r.rets:
             if st.ret != C(1):
                 continue
